@@ -94,7 +94,8 @@ def run_unit(unit, rng, ctx):
     names = sys_.species_names
     T, N, _ = sys_.coords.shape
     max_dist = float(rng.uniform(2.0, 6.0))
-    res = float(rng.choice([0.1, 0.25, 0.5]))
+    res = float(rng.choice([0.1, 0.25, 0.5, 0.02, 0.015]))  # the last two give more than 255 bins
+    ctx.count('fine_resolution_cases', res < 0.05)
     what = f'{sys_.kind}{"/rot" if sys_.rotated else ""} labels={sys_.labels} species={names} max_dist={max_dist:.3f} res={res}'
     wit = {'matrix': m, 'labels': sys_.labels, 'species': names, 'max_dist': max_dist, 'resolution': res}
     P = np.mod(sys_.coords, 1)
